@@ -154,7 +154,7 @@ func (b *Builder) FromBytes(bytes []byte) (*Config, error) {
 
 	cfg := &Config{
 		dimensions: dims,
-		cached:     xsync.NewMapOf[string, any](),
+		cached:     xsync.NewMapOf[cacheKey, any](),
 		data:       result,
 	}
 	return cfg, nil
